@@ -618,7 +618,20 @@ for t in WT:
 V("ctor_d@init", ["d"], lambda d: int(d))
 V("ctor_copy@init", ["I"], lambda n: n)
 # the build configuration the model's C-integer layer is written for (printed by the compiled harness, restated by the model)
-V("config", [], lambda: [64, 64, 64, 32, 8, 64, 8, 1, 1], gridcases=[[]], weight=0, nodecl=True)
+V("config", [], lambda: [64, 64, 64, 32, 8, 64, 8, 1, 1, 0, 1, -1], gridcases=[[]], weight=0, nodecl=True)
+# three-address forms whose destination is one of the operands (the value must not depend on it)
+for _op, _f in (("add", lambda x, n: x + n), ("sub", lambda x, n: x - n), ("mul", lambda x, n: x * n)):
+    V(_op + "_I@res_is_n1", ["I", "I"], _f)
+    V(_op + "_I@res_is_n2", ["I", "I"], _f)
+    V(_op + "_I@all_same", ["I"], (lambda f: lambda x: f(x, x))(_f), margs=lambda x: [x, x])
+    for t in WT:
+        V("%s_%s@res_is_n1" % (_op, t), ["I", t], _f)
+# powers of the bases 0, 1, -1 with exponents at the limits of the carrying word type: the implementation against the
+# specification oracle only (the model's Z.pow is linear in the exponent); a signed exponent l < 0 stands for |l|
+for t in WT:
+    for _b in ("pow3_", "pow_", "dom_pow_"):
+        V(_b + t + "@unit", ["unit", "lim_" + t], lambda n, l: n ** abs(l), oracle_only=True)
+
 
 
 # ------------------------------------------------------------------ deterministic grid: domain restrictions / special lists
@@ -679,4 +692,6 @@ for _nm, _sp in VARIANTS.items():
         _sp["grid"] = [special_list("N") + [4, 8, 9, 2**62, 2**63 - 1, 3**40, 3**40 + 1]]
     elif _b == "ctor_vect":
         _L = [0, 1, 2**63, 2**64 - 1]
-        _sp["gridcases"] = [[]] + [[x] for x in _L] + [[x, y] for x in _L for y in _L] + [[x, y, z] for x in _L for y in _L for z in _L]
+        _M = 2**64 - 1
+        _sp["gridcases"] = [[]] + [[x] for x in _L] + [[x, y] for x in _L for y in _L] + [[x, y, z] for x in _L for y in _L for z in _L] + \
+            [[_M] * 4, [_M] * 5, [_M] * 6, [0, 0, 0, 1], [0, 0, 0, 0, 1], [1, 0, 0, 0, 0, 2**63], [2**63] * 4, [1, 2, 3, 4, 5, 6], [0, 0, 0, 0]]
